@@ -155,6 +155,16 @@ def process(ctx: Ctx, cases: list[dict]) -> None:
             ctx.case({"argv": argv}, nondefault, tuple(x for x in argv[1:] if x.startswith("-")))
             with impl.scratch() as t1, impl.scratch() as t2:
                 build(t1); build(t2)
+                if o.get("pre"):
+                    # the target exists already (an earlier run with other content): append mode merges into it
+                    from dictIO import DictWriter, create_target_file_name
+                    try:
+                        tn = create_target_file_name(Path(o.get("src", "src.dict")), prefix="parsed", scope=spec.validate_scope(o["scope"]), output=o["output"]).name
+                        for t in (t1, t2):
+                            reset_globals()
+                            DictWriter.write({"zz_old": 1, "n": {"old": 1, "aa": 2}, "beta": "x", "alpha": "y"}, t / tn, mode="w")
+                    except Exception:  # noqa: BLE001
+                        pass
                 if c.get("subprocess"):
                     env = dict(os.environ); env["PYTHONPATH"] = "/repo/src"; env["PYTHONDONTWRITEBYTECODE"] = "1"
                     p = subprocess.run(["/venv/bin/python", "-m", "dictIO.cli.dict_parser"] + argv, cwd=t1, env=env, capture_output=True, text=True, timeout=120)
@@ -236,9 +246,10 @@ def run(ctx: Ctx) -> None:
         ctx.exhaustive.append("complete flag matrix (2*2*2*3*5*5*3*2 = 3600 combinations)")
     for i, o in enumerate(opts):
         o = dict(o)
+        o["pre"] = (o["mode"] == "a") or rng.random() < 0.2
         if rng.random() < 0.3:
             o["Iflag"] = "--ignore-includes"; o["Cflag"] = "--ignore-comments"; o["oflag"] = "--output"
-        cases.append({"kind": "run", "o": o, "subprocess": (ctx.tier == "quick" and i < 8) or (ctx.tier == "thorough" and i % 40 == 0)})
+        cases.append({"kind": "run", "o": o, "subprocess": (ctx.tier == "quick" and (i < 8 or (o["mode"] == "a" and i < 30))) or (ctx.tier == "thorough" and (i % 40 == 0 or (o["mode"] == "a" and i % 10 == 0)))})
     for sc in ("load case", "['load case']", "['load case', 'wind speed']", "[ n , m ]", "[n,m]", "plain", '["load case"]'):
         cases.append({"kind": "run", "subprocess": False, "o": {"src": "src2.json", "I": False, "Iflag": "-I", "order": False, "C": False, "Cflag": "-C", "mode": None,
                                                                "output": rng.choice([None, "json"]), "oflag": "-o", "scope": sc, "verb": None, "log": False}})
